@@ -248,6 +248,19 @@ Theorem C14_switch_pick_is_model : forall x crs d n, (0 < n)%N ->
   end.
 Proof. exact switch_pick_model. Qed.
 
+(* groupByEqual (group_eq_model: first-occurrence scan over fg.equal): two keys form one group iff a = b is
+   true, two groups iff it is false, and the operation fails iff = fails - in either order of the keys *)
+Theorem C14_groupByEqual_pairs : forall a b,
+  group_eq_model [a; b] = match veq a b with
+                          | Ok true => Ok 1%N | Ok false => Ok 2%N
+                          | Err t => Err t | Panic => Panic | OOF => OOF | Unsup => Unsup
+                          end.
+Proof. exact group_eq_pairs. Qed.
+
+Theorem C14_groupByEqual_pairs_sym : forall a b, wf_keys a = true -> wf_keys b = true ->
+  group_eq_model [a; b] = group_eq_model [b; a].
+Proof. exact group_eq_pairs_sym. Qed.
+
 (* ---------------------------------------------------------------- order agrees with < *)
 
 (* order_model: List.Order + sort.Sort as the insertion sort (what Go runs for <= 12 elements), for ANY length.
@@ -354,6 +367,8 @@ Print Assumptions C14_switch_pair.
 Print Assumptions C14_switch_sym.
 Print Assumptions C14_switch_is_ref_semantics.
 Print Assumptions C14_switch_pick_is_model.
+Print Assumptions C14_groupByEqual_pairs.
+Print Assumptions C14_groupByEqual_pairs_sym.
 Print Assumptions C14_order_model_sorted.
 Print Assumptions C14_order_agrees_with_less.
 Print Assumptions C14_order_error_iff_incomparable.
